@@ -106,7 +106,9 @@ def k23_repaired(text):
     out, last = [], 0
     hit = False
     for k, a, b in reflex.scan(text):
-        if k == "bracket_comment" and text.startswith("#[[[", a):
+        # a real doccomment closes with '#]]'; the K2/K3 input class is a bracket comment spelled '#[[[' that CMake
+        # closes at a plain ']]'
+        if k == "bracket_comment" and text.startswith("#[[[", a) and not text.endswith("#]]", a, b):
             out.append(text[last:a]); out.append("#[[ [" + text[a + 4:b]); last = b
             hit = True
     out.append(text[last:])
@@ -120,8 +122,8 @@ def check_file(job):
     if msgs:
         rep, hit = k23_repaired(text)
         if hit and not judge_text(rep)[0]:
-            inside = any(k == "bracket_comment" and text.startswith("#[[[", a) and _depth_at(text, a) > 0
-                         for k, a, b in reflex.scan(text))
+            inside = any(k == "bracket_comment" and text.startswith("#[[[", a) and not text.endswith("#]]", a, b)
+                         and _depth_at(text, a) > 0 for k, a, b in reflex.scan(text))
             known = "K2" if inside else "K3"
     return {"viol": msgs, "obs": common.digest(ref), "nt": common.digest(text), "known": known, "n": 1,
             "cls": (msgs[0].split(":")[0] + (" generic_command" if "generic_command" in text else "")) if msgs else None,
@@ -144,8 +146,8 @@ def attribute(case, msgs):
         return None
     rep, hit = k23_repaired(text)
     if hit and not judge_text(rep)[0]:
-        inside = any(k == "bracket_comment" and text.startswith("#[[[", a) and _depth_at(text, a) > 0
-                     for k, a, b in reflex.scan(text))
+        inside = any(k == "bracket_comment" and text.startswith("#[[[", a) and not text.endswith("#]]", a, b)
+                     and _depth_at(text, a) > 0 for k, a, b in reflex.scan(text))
         return "K2" if inside else "K3"
     return None
 
